@@ -291,14 +291,7 @@ type refClient struct {
 func (cl *refClient) Close() { cl.conn.Close() }
 
 // Upgrade switches to the encrypted session (after pair-verify M4).
-func (cl *refClient) Upgrade(shared []byte) {
-	cl.sess = newRefControllerSession(shared)
-	// hc hands the connection over to the new cryptographer when its next Read starts; net/http's background read of
-	// the M3 request is aborted only just after M4 was flushed. A controller that sends its first encrypted byte within
-	// that window (microseconds) loses it to the still pending plaintext read (DESIGN.md, finding F18). Real controllers
-	// do not answer that fast; the reference controller waits a moment so that runs are deterministic.
-	time.Sleep(3 * time.Millisecond)
-}
+func (cl *refClient) Upgrade(shared []byte) { cl.sess = newRefControllerSession(shared) }
 
 func (cl *refClient) send(b []byte) error {
 	if cl.sess != nil {
@@ -449,4 +442,30 @@ func (cl *refClient) Post() postFn {
 func snapshotFn(w, h uint) (*image.Image, error) {
 	var img image.Image = image.NewRGBA(image.Rect(0, 0, 4, 4))
 	return &img, nil
+}
+
+// quietConn is a net.Conn that only has a remote address; writes succeed, reads report EOF.
+type quietConn struct{ remote net.Addr }
+
+func (q quietConn) Read(b []byte) (int, error)         { return 0, io.EOF }
+func (q quietConn) Write(b []byte) (int, error)        { return len(b), nil }
+func (q quietConn) Close() error                       { return nil }
+func (q quietConn) LocalAddr() net.Addr                { return fakeAddr("127.0.0.1:1") }
+func (q quietConn) RemoteAddr() net.Addr               { return q.remote }
+func (q quietConn) SetDeadline(t time.Time) error      { return nil }
+func (q quietConn) SetReadDeadline(t time.Time) error  { return nil }
+func (q quietConn) SetWriteDeadline(t time.Time) error { return nil }
+
+// responseWritten emulates, for handlers driven in-process (their responses go to a recorder, not through the
+// hap.Connection), the moment the response has been written on the connection `raw`: hc switches the session to a
+// cryptographer negotiated by that request only then (hap/session.go didWrite; before the F18 repair: on the next Read).
+func responseWritten(ctx hap.Context, raw net.Conn) {
+	sess := ctx.GetSessionForConnection(raw)
+	if sess == nil {
+		return
+	}
+	tmp := hap.NewConnection(quietConn{raw.RemoteAddr()}, ctx) // registers a throw-away session under the same key …
+	ctx.SetSessionForConnection(sess, raw)                      // … so put the real one back
+	tmp.Write(nil)
+	sess.Decrypter() // (pre-repair code promoted here)
 }
